@@ -5,11 +5,14 @@ text of the proposed fix (notes/fixes/C04-*.diff) are recognised; anything else 
   nilNodeOnly  `()` for rdf:nil: everywhere (`write_iri`) / only through `write_node` (subject, object, list item)
   walkStamp    `build_labelled` cycle walk: `visited: bool` shortcut / per-walk stamp marking re-entered cycles
   singleRest   `list_item`: `continue` on every rdf:rest / a second rdf:rest disqualifies the node
+  indentTurtleWs  `TurtleConfig::with_indentation` (turtle.rs): accepts any `char::is_whitespace` (Unicode White_Space) /
+               only the white space of the Turtle grammar (notes/fixes/C04-indent-turtle-ws.diff)
 `ExtractError`, `read`, `HEADER` are injected by tools/extract.py.
 """
 import re
 
 REL = "turtle/src/serializer/_pretty.rs"
+REL_CFG = "turtle/src/serializer/turtle.rs"
 
 
 def _squash(s):
@@ -17,7 +20,7 @@ def _squash(s):
 
 
 def _fn(text, name):
-    m = re.search(r"\n(    )?fn %s\b" % name, text)
+    m = re.search(r"\n(    )?(?:pub(?:\([a-z]+\))? )?(?:const )?fn %s\b" % name, text)
     if not m:
         return None
     indent = m.group(1) or ""
@@ -72,6 +75,25 @@ def _flags(repo):
         flags["singleRest"] = True
     else:
         raise ExtractError("%s: list_item is neither the shipped nor the fixed text" % REL)
+    # ---- with_indentation
+    cfg = read(repo, REL_CFG)
+    wi = _fn(cfg, "with_indentation")
+    if wi is None:
+        raise ExtractError("%s: fn with_indentation not found" % REL_CFG)
+    asserts = re.findall(r"assert!\((.*?)\);", wi)
+    if asserts == ["indentation.chars().all(char::is_whitespace)"]:
+        flags["indentTurtleWs"] = False
+    elif asserts == ["indentation.chars().all(|c| matches!(c, ' ' | '\\t' | '\\r' | '\\n'))"]:
+        flags["indentTurtleWs"] = True
+    else:
+        raise ExtractError("%s: the assertion of with_indentation is neither the shipped nor the fixed text: %r" % (REL_CFG, asserts))
+    if "self.indentation = indentation;" not in wi:
+        raise ExtractError("%s: with_indentation does not store the indentation as in the model" % REL_CFG)
+    # prettify's own assertion concerns `base_indent`, which both serializers pass as ""
+    for rel in (REL_CFG, "turtle/src/serializer/trig.rs"):
+        calls = re.findall(r"\bprettify\((.*?)\)", _squash(read(repo, rel)))
+        if calls != ['dataset, &mut self.write, &self.config, ""']:
+            raise ExtractError("%s: prettify is not called (once) with an empty base indentation: %r" % (rel, calls))
     return flags
 
 
@@ -79,7 +101,7 @@ def _gen(repo):
     flags = _flags(repo)
     b = lambda x: "true" if x else "false"
     out = [HEADER, "namespace SophiaModel.Gen.PrettyFlags\n"]
-    for k in ("nilNodeOnly", "walkStamp", "singleRest"):
+    for k in ("nilNodeOnly", "walkStamp", "singleRest", "indentTurtleWs"):
         out.append("def %s : Bool := %s\n" % (k, b(flags[k])))
     out.append("end SophiaModel.Gen.PrettyFlags\n")
     return "".join(out), {"flags": flags}
